@@ -281,3 +281,19 @@ spec fn sp_looks_non_string(b: Seq<u8>) -> bool {
     || sp_yaml11(spec_trim(b)) is Some
     || sp_null_text(b)
 }
+
+// ---- slice entry points (C09): the options and the target type are opaque ----
+#[verifier::external_body] pub struct Options { _p: () }
+#[verifier::external_body] pub struct TargetVal { _p: () }     // stands for `T`
+#[verifier::external_body] pub struct TargetVec { _p: () }     // stands for `Vec<T>`
+uninterp spec fn sp_from_str(text: Seq<u8>, options: Options) -> Result<TargetVal, Error>;
+uninterp spec fn sp_from_multiple(text: Seq<u8>, options: Options) -> Result<TargetVec, Error>;
+#[verifier::external_body]
+fn from_str_with_options(s: &str, options: Options) -> (r: Result<TargetVal, Error>) ensures r == sp_from_str(s.spec_bytes(), options) { unimplemented!() }
+#[verifier::external_body]
+fn from_multiple_with_options(s: &str, options: Options) -> (r: Result<TargetVec, Error>) ensures r == sp_from_multiple(s.spec_bytes(), options) { unimplemented!() }
+/// `std::str::from_utf8`
+#[verifier::external_body]
+fn ty_str_from_utf8<'a>(b: &'a [u8]) -> (r: Result<&'a str, ()>)
+    ensures match r { Ok(s) => valid_utf8(b@) && s.spec_bytes() == b@, Err(_) => !valid_utf8(b@) },
+{ unimplemented!() }
